@@ -1,19 +1,36 @@
 import ZI.MethodModel
-/-! Driver for the method-description layer (C18): `ff <imlevel> <argcount> <kwonly> <varargs 0/1> <kwargs 0/1> <defaults ids ,-sep or -> <varnames…>`
-    answers with what `fromFunction` reports and the rendered signature string. -/
+/-! Driver for the method-description layer (C18): `ff <imlevel> <argcount> <kwonly> <varargs 0/1> <kwargs 0/1> <defaults ,-sep or -> <varnames…>`
+    answers with what `fromFunction` reports and the rendered signature string.  A default is `<id>` (an opaque value whose
+    repr is its id) or `<id>:<hex>`: the value's id together with its `repr` (UTF-8, hex) — the `reprOf` the model's
+    `sigString` is parametric in is then the real `repr` of the real default values, whatever kind of object they are. -/
 namespace Drv.Method
 open ZI.Method
 def shwO : Option String → String | some s => s | none => "None"
+def hexVal (c : Char) : Nat := if c.isDigit then c.toNat - 48 else if c.toNat ≥ 97 then c.toNat - 87 else c.toNat - 55
+def unhexBytes : List Char → ByteArray → ByteArray
+  | a :: b :: r, acc => unhexBytes r (acc.push (UInt8.ofNat (hexVal a * 16 + hexVal b)))
+  | _, acc => acc
+def unhex (s : String) : String := (String.fromUTF8? (unhexBytes s.toList .empty)).getD "<not UTF-8>"
+/-- one default: its id and, if given, its repr -/
+def parseDefault (s : String) : Nat × Option String :=
+  match s.splitOn ":" with
+  | [n, h] => (n.toNat!, some (unhex h))
+  | _ => (s.toNat!, none)
+/-- `reprOf`: the repr handed over with the id, else the id itself -/
+def reprFrom (tbl : List (Nat × Option String)) (n : Nat) : String :=
+  match tbl.find? (·.1 == n) with
+  | some (_, some r) => r
+  | _ => toString n
 partial def loop (h : IO.FS.Stream) : IO Unit := do
   let line ← h.getLine
   if line.isEmpty then return ()
   match (line.trimAscii.toString.splitOn " ").filter (· != "") with
   | "ff" :: iml :: ac :: ko :: va :: kw :: ds :: names =>
-    let defaults := if ds == "-" then [] else (ds.splitOn ",").map String.toNat!
-    let c : Code := ⟨ac.toNat!, ko.toNat!, names, va == "1", kw == "1", defaults⟩
+    let tbl := if ds == "-" then [] else (ds.splitOn ",").map parseDefault
+    let c : Code := ⟨ac.toNat!, ko.toNat!, names, va == "1", kw == "1", tbl.map (·.1)⟩
     let i := fromFunction c iml.toNat!
-    let opt := ",".intercalate (i.optional.map fun p => s!"{p.1}={p.2}")
-    IO.println s!"pos={",".intercalate i.positional} req={",".intercalate i.required} opt={opt} var={shwO i.varargs} kw={shwO i.kwargs} str={sigString toString i}"
+    let opt := ",".intercalate (i.optional.map fun p => s!"{p.1}={reprFrom tbl p.2}")
+    IO.println s!"pos={",".intercalate i.positional} req={",".intercalate i.required} opt={opt} var={shwO i.varargs} kw={shwO i.kwargs} str={sigString (reprFrom tbl) i}"
   | _ => IO.println "bad"
   loop h
 def main : IO Unit := do loop (← IO.getStdin)
